@@ -366,6 +366,7 @@ pub mod tags {
     pub const TAG_FUNCTION: u64 = 40006;
     pub const TAG_PARAMETER: u64 = 40007;
     pub const TAG_EVENT: u64 = 40026;
+    pub const TAG_ARID: u64 = 40012;
 }
 
 // ============================================================================ EncryptedMessage / Compressed / keys
@@ -1017,6 +1018,13 @@ impl Clone for ARID {
     fn clone(&self) -> (r: Self) ensures r == *self { unimplemented!() }
 }
 pub uninterp spec fn arid_cbor(x: ARID) -> CBOR;
+// [A-arid-codec-shape] an ARID's CBOR is tagged #6.40012 (bc-components `impl CBORTaggedEncodable for ARID`)
+pub broadcast axiom fn axiom_arid_cbor_shape(x: ARID)
+    ensures *(#[trigger] arid_cbor(x)).0 is Tagged && arid_cbor(x).s_tag() == tags::TAG_ARID;
+// [A-arid-codec-inj] the CBOR determines the ARID (decoding is a function)
+pub broadcast axiom fn axiom_arid_cbor_inj(a: ARID, b: ARID)
+    requires #[trigger] arid_cbor(a) == #[trigger] arid_cbor(b)
+    ensures a == b;
 impl vstd::std_specs::convert::FromSpecImpl<ARID> for CBOR {
     open spec fn obeys_from_spec() -> bool { true }
     open spec fn from_spec(x: ARID) -> Self { arid_cbor(x) }
@@ -1032,10 +1040,10 @@ impl vstd::std_specs::convert::TryFromSpecImpl<CBOR> for ARID {
 }
 impl TryFrom<CBOR> for ARID {
     type Error = Error;
-    // [A-arid-codec]
+    // [A-arid-codec] decoding inverts encoding: Ok(a) exactly for the CBOR of an ARID a
     #[verifier::external_body]
     fn try_from(c: CBOR) -> (r: Result<ARID, Error>)
-        ensures r matches Ok(a) ==> arid_cbor(a) == c
+        ensures r matches Ok(a) ==> arid_cbor(a) == c, (exists|a: ARID| arid_cbor(a) == c) ==> r is Ok
     { unimplemented!() }
 }
 impl CBOR {
